@@ -77,8 +77,8 @@ def trace_cfg(nsrc, nsea, nbor, devs=()):
     return '\n'.join(lines) + '\n'
 
 
-def model_check(sl, formulas, export='Export', timeout=6000):
-    res = tlc.run('MC_MibCompile', 'gen.cfg', files={'gen.cfg': cfg_text(sl, formulas, export)}, timeout=timeout, deadlock=True, coverage=True)
+def model_check(sl, formulas, export='Export', timeout=6000, seed=0):
+    res = tlc.run('MC_MibCompile', 'gen.cfg', files={'gen.cfg': cfg_text(sl, formulas, export)}, timeout=timeout, deadlock=True, coverage=True, seed=seed)
     return res
 
 
@@ -155,7 +155,7 @@ def run(out, prop, tier, seed, max_replay=None, only_slices=None):
         import time as _t
         t0 = _t.time()
         # quick tier: every 7th terminal state is exported (the replay sample is drawn from them); thorough: all of them
-        res = model_check(sl, formulas, export='ExportSome' if (tier == 'quick' and not only_slices) else 'Export')
+        res = model_check(sl, formulas, export='ExportSome' if (tier == 'quick' and not only_slices) else 'Export', seed=seed)
         t1 = _t.time()
         out.add_tlc(res, 'MibCompile/' + sl)
         cov = out.extra.setdefault('action_coverage', {})
